@@ -1,7 +1,7 @@
 import Interceptor.Driver.Util
 import Interceptor.Model.Unwrapper
-namespace Interceptor.Driver
-open Interceptor.Unwrapper
+namespace Interceptor.Driver.Unwrapper
+open Interceptor.Driver Interceptor.Unwrapper
 
 /-- ops: `new` | `u <uint16>` → prints the unwrapped value. -/
 def unwrapperComponent : Component where
@@ -16,4 +16,6 @@ def unwrapperComponent : Component where
       | none => (s, ["bad-op"])
     | _ => (s, ["bad-op"])
 
-end Interceptor.Driver
+def components : List (String × Component) := [("unwrapper", unwrapperComponent)]
+
+end Interceptor.Driver.Unwrapper
